@@ -232,6 +232,15 @@ part = functools.partial(plain, 1)
 class WithCallAndInit:
     def __init__(self, x=0):
         y = x
+
+def make_late(activate):
+    # the closure variable `late` has no value yet when the probe is activated
+    def inner(x):
+        y = x + late
+        return y
+    outcome = activate(inner)
+    late = 3
+    return outcome, inner
 '''
 
 TARGETS = [
@@ -239,6 +248,8 @@ TARGETS = [
     ("nofn > x", "selector-error"),
     ("plain.nope > x", "selector-error"),
     ("plain > x", "ok"),
+    ("inner > late", "ok"),            # a closure variable that is still unbound when the probe is activated
+    ("inner > y", "ok"),
     ("len > x", "type-error"),
     ("NoInit > x", "type-error"),
     ("n > x", "type-error"),
@@ -265,11 +276,21 @@ def check_targets(part):
         part["evaluations"] += 1
         part["steps"] += 1
         try:
-            p = probing(sel, env={**ns, "len": len})
-            p.__enter__()
-            p.__exit__(None, None, None)
-            got = "ok"
-            msg = ""
+            if sel.startswith("inner"):
+                def activate(fn, sel=sel):
+                    with probing(sel, env={"inner": fn}) as p:
+                        pass
+                    return "ok"
+                got, inner = ns["make_late"](activate)
+                if inner(1) != 4:
+                    got = "other:wrong-result"
+                msg = ""
+            else:
+                p = probing(sel, env={**ns, "len": len})
+                p.__enter__()
+                p.__exit__(None, None, None)
+                got = "ok"
+                msg = ""
         except SelectorError as e:
             got, msg = "selector-error", str(e)
         except TypeError as e:
